@@ -106,12 +106,19 @@ func main() {
 			}
 		}
 		entries = append(entries, crlgen.Entry{Serial: big.NewInt(1), Date: gen.BaseTime}, crlgen.Entry{Serial: big.NewInt(10), Date: gen.BaseTime}, crlgen.Entry{Serial: big.NewInt(256), Date: gen.BaseTime})
+		// negative serials (INTEGER with the top bit set and no leading zero octet, as some CAs emit):
+		// they must not revoke the certificate whose serial is the absolute value
+		var negatives []crlgen.Entry
+		for _, v := range []*big.Int{big.NewInt(-5), big.NewInt(-128), big.NewInt(-70000), new(big.Int).Neg(gen.SerialOfWidth(rng, 16, false))} {
+			negatives = append(negatives, crlgen.Entry{Serial: v, Date: gen.BaseTime})
+		}
 		listed := map[string]bool{}
 		for _, e := range entries {
 			listed[e.Serial.String()] = true
 		}
+		allEntries := append(append([]crlgen.Entry(nil), entries...), negatives...)
 		file := filepath.Join(scratch, "static-"+backend+".crl")
-		_ = os.WriteFile(file, gen.SpecFor(x, entries).Build(x.Key).DER, 0644)
+		_ = os.WriteFile(file, gen.SpecFor(x, allEntries).Build(x.Key).DER, 0644)
 		wd := filepath.Join(scratch, "wd-static-"+backend)
 		_ = os.MkdirAll(wd, 0755)
 		chk, err := l2.Start(l2.Opts{WorkDir: wd, Storage: backend, SigMode: "verify", Fetch: "actively", CRLFiles: []string{file}, Trusted: []*x509.Certificate{x.Cert}})
@@ -146,6 +153,24 @@ func main() {
 				if controls > 0 {
 					run.NonTrivial(desc)
 				}
+			}
+		}
+		// absolute values of listed negative serials
+		for _, e := range negatives {
+			abs := new(big.Int).Abs(e.Serial)
+			if listed[abs.String()] {
+				continue
+			}
+			leaf := x.Leaf(abs, nil, nil)
+			rev, err := chk.Ask([]*x509.Certificate{leaf, x.Cert, w.Root.Cert})
+			run.Eval(1)
+			desc := fmt.Sprintf("static backend=%s listed-negative=%s probe=%s", backend, e.Serial, abs)
+			if err != nil || rev {
+				run.Violation("sign-variant-serial."+backend, desc+": the certificate whose serial is the absolute value of a listed negative serial is reported revoked", &report.Replay{Case: desc})
+				continue
+			}
+			if controls > 0 {
+				run.NonTrivial(desc)
 			}
 		}
 		// neighbours under the same issuer
